@@ -15,7 +15,8 @@ META = {
              "distinct = hash(case); non-trivial = >=2 blocs, N>=7 and some 0/1 parameter or zero-support candidate."),
     "assumptions": ["an apportionment is accepted iff it satisfies the divisor-method min-max inequality for d(k)=sqrt(k(k+1)) (any tie-break)"],
     "min_obs": {"all": {"profiles_checked": 600, "by_bloc_checked": 200, "hh_checks": 200, "crossover_split_checks": 40,
-                        "zero_support_cases": 50, "mcmc_checked": 40, "spatial_checked": 40}},
+                        "zero_support_cases": 50, "mcmc_checked": 40, "spatial_checked": 40,
+                        "cambridge_split_observable_checks": 10}},
 }
 
 NS = [1, 2, 3, 7, 7, 50]
@@ -282,6 +283,18 @@ def check_case(ctx, case):
                 ok2 = any(bp.valid_hh(v, [a, pooled[0] - a, c2, pooled[1] - c2], N)
                           for a in range(pooled[0] + 1) for c2 in range(pooled[1] + 1))
                 ctx.count("crossover_split_checks")
+                # when a bloc's voters have a supported candidate on BOTH slates and its cohesion is strictly between 0 and 1,
+                # the historical ballot type's first letter is the slate of the first candidate: bloc voters start with their
+                # own slate, crossover voters with the opposing one - so there the split itself is observable and must be the
+                # apportioned one, exactly as for AlternatingCrossover
+                observable = all(0 < p["cohesion_parameters"][b][b] < 1 and
+                                 all(any(x > 0 for x in p["pref_intervals_by_bloc"][b][s_].values()) for s_ in blocs) for b in blocs)
+                if observable:
+                    ctx.count("cambridge_split_observable_checks")
+                    if not tot_ok:
+                        ctx.fail("CambridgeSampler: bloc-first / opposing-first split is not a Huntington-Hill apportionment of the "
+                                 "voter types", case, {"types": v, "split": split}, mech=classify_hh(v, split, N))
+                        return
                 if not ok2:
                     ctx.fail("CambridgeSampler: bloc sizes are not consistent with a Huntington-Hill apportionment of the voter types",
                              case, {"types": v, "bloc_sizes": pooled}, mech=classify_hh(v, split, N, pooled=True))
